@@ -95,6 +95,23 @@ var verifDir = func() string {
 const goBin = "go1.26.8"
 
 var scratch string
+
+// replayDir: where replay files go (tools/regress.sh separates parallel jobs with VERIF_REPLAY_DIR).
+func replayDir() string {
+	if v := os.Getenv("VERIF_REPLAY_DIR"); v != "" {
+		return v
+	}
+	return filepath.Join(verifDir, "replays")
+}
+
+// repoDir is the tree that is checked: /repo, or a scratch worktree named by
+// VERIF_REPO (overlaid onto /repo at build time; /repo itself is not touched).
+var repoDir = func() string {
+	if v := os.Getenv("VERIF_REPO"); v != "" {
+		return v
+	}
+	return "/repo"
+}()
 var workerProcs = "1"
 
 func goEnv() []string {
@@ -190,7 +207,7 @@ func main() {
 	defer cleanup()
 
 	// 1. rewrite + build from /repo's current working tree
-	if out, err := runCmd(verifDir, goEnv(), goBin, "run", "./verifgen", "-repo", "/repo", "-out", scratch); err != nil {
+	if out, err := runCmd(verifDir, goEnv(), goBin, "run", "./verifgen", "-repo", repoDir, "-target", "/repo", "-out", scratch); err != nil {
 		die2("verifgen failed: %v\n%s", err, out)
 	}
 	bin := filepath.Join(scratch, "worker.test")
@@ -263,7 +280,7 @@ func main() {
 			mc, mr = minimise(prop, bin, v, cfg)
 		}
 		mc.Expect = mr
-		path := filepath.Join(verifDir, "replays", fmt.Sprintf("%s-%d.json", prop, v.seed))
+		path := filepath.Join(replayDir(), fmt.Sprintf("%s-%d.json", prop, v.seed))
 		b, _ := json.MarshalIndent(mc, "", " ")
 		os.MkdirAll(filepath.Dir(path), 0o755)
 		os.WriteFile(path, b, 0o644)
@@ -295,7 +312,7 @@ func main() {
 		exit = 1
 	}
 	if raceViol != nil {
-		path := filepath.Join(verifDir, "replays", fmt.Sprintf("%s-race-%d.json", prop, seed))
+		path := filepath.Join(replayDir(), fmt.Sprintf("%s-race-%d.json", prop, seed))
 		b, _ := json.MarshalIndent(map[string]any{"property": prop, "race_leg": true, "seed": seed, "report": raceViol.res.Detail, "case": raceViol.c}, "", " ")
 		os.WriteFile(path, b, 0o644)
 		if kf := matchKnown(known, prop, raceViol.res); kf != "" {
@@ -474,6 +491,14 @@ func (p *proc) wait(hangS int) (hung bool) {
 		if s := strings.TrimSpace(string(b)); s != p.lastHB && s != "" {
 			p.lastHB, p.lastChg = s, time.Now()
 		} else if time.Since(p.lastChg) > time.Duration(hangS)*time.Second {
+			// SIGQUIT makes the Go runtime print every goroutine's stack before it exits: that tells a
+			// task spinning inside the interpreter from a stall of the harness itself
+			if p.cmd.Process != nil {
+				syscall.Kill(p.cmd.Process.Pid, syscall.SIGQUIT)
+				for i := 0; i < 40 && !p.isDone(); i++ {
+					time.Sleep(50 * time.Millisecond)
+				}
+			}
 			p.kill()
 			<-p.doneCh
 			return true
@@ -660,7 +685,34 @@ func confirmHang(prop, tier, bin string, seed int64, cfg tierCfg, beat string) *
 	out := filepath.Join(scratch, fmt.Sprintf("hangreplay.%d.jsonl", seed))
 	rp := startWorker(prop, tier, bin, []string{"VERIF_MODE=replay", "VERIF_CASE=" + path}, out, out+".hb")
 	hung := rp.wait(cfg.HangS)
+	if !hung && rp.err == nil {
+		// the sweep also runs the case without the constructs behind known findings: the stall may be there
+		sout := filepath.Join(scratch, fmt.Sprintf("strip.%d.jsonl", seed))
+		sp := startWorker(prop, tier, bin, []string{"VERIF_MODE=strip", "VERIF_CASE=" + path}, sout, sout+".hb")
+		sp.wait(cfg.HangS)
+		var sc *harness.Case
+		readLines(sout, func(l *line) {
+			if l.Case != nil {
+				sc = l.Case
+			}
+		})
+		if sc != nil {
+			c = sc
+			b, _ := json.Marshal(c)
+			os.WriteFile(path, b, 0o644)
+			out = filepath.Join(scratch, fmt.Sprintf("hangreplay2.%d.jsonl", seed))
+			rp = startWorker(prop, tier, bin, []string{"VERIF_MODE=replay", "VERIF_CASE=" + path}, out, out+".hb")
+			hung = rp.wait(cfg.HangS)
+		}
+	}
 	if hung {
+		if spin := spinningInInterpreter(out + ".stderr"); spin != "" && !strings.Contains(rp.lastHB, "cancel-delivered") {
+			// no yield point was reached for the whole watchdog period although a goroutine is running
+			// interpreter code: every statement and every loop iteration is a context poll (= a yield),
+			// so this script cannot observe a cancellation
+			return &violation{seed: seed, c: c, hang: true, res: &harness.Result{Violation: "hang", Signature: "hang: spins without polling the context",
+				Detail: "a script goroutine runs interpreter code without ever polling its context (no yield point reached within the watchdog period); running goroutine:\n" + spin}}
+		}
 		if strings.Contains(rp.lastHB, "cancel-delivered") || strings.Contains(rp.lastHB, "must-finish") {
 			return &violation{seed: seed, c: c, hang: true, res: &harness.Result{Violation: "hang", Signature: "hang:" + rp.lastHB,
 				Detail: "the case never reaches quiescence again (a task spins without polling its context): " + rp.lastHB}}
@@ -793,7 +845,7 @@ func doReplay(prop, bin, path string, known *knownFile, dumpLog bool) int {
 // only what the Go race detector prints. Probabilistic; auxiliary.
 func raceLeg(prop, tier string, seed int64, secs int, info map[string]any, fixedCase ...string) *violation {
 	bin := filepath.Join(scratch, "racer.test")
-	if out, err := runCmd(verifDir, goEnv(), goBin, "test", "-race", "-c", "-o", bin, "./racer"); err != nil {
+	if out, err := runCmd(verifDir, goEnv(), goBin, "test", "-race", "-c", "-overlay", filepath.Join(scratch, "overlay.plain.json"), "-o", bin, "./racer"); err != nil {
 		die2("building the race leg failed: %v\n%s", err, out)
 	}
 	t0 := time.Now()
@@ -804,8 +856,27 @@ func raceLeg(prop, tier string, seed int64, secs int, info map[string]any, fixed
 	if len(fixedCase) > 0 && fixedCase[0] != "" {
 		cmd.Env = append(cmd.Env, "VERIF_REAL_CASE="+fixedCase[0])
 	}
-	out, err := cmd.CombinedOutput()
+	// the real-goroutine leg has no scheduler to detect a deadlock: give it its budget plus a
+	// minute, then kill the process group; not finishing is itself a finding (the workloads terminate)
+	cmd.SysProcAttr = &syscall.SysProcAttr{Setpgid: true}
+	var buf strings.Builder
+	cmd.Stdout, cmd.Stderr = &buf, &buf
+	timedOut := false
+	if err0 := cmd.Start(); err0 != nil {
+		die2("cannot start the race leg: %v", err0)
+	}
+	timer := time.AfterFunc(time.Duration(secs+60)*time.Second, func() {
+		timedOut = true
+		syscall.Kill(-cmd.Process.Pid, syscall.SIGKILL)
+	})
+	err := cmd.Wait()
+	timer.Stop()
+	out := []byte(buf.String())
 	info["race_leg_wall_s"] = time.Since(t0).Seconds()
+	if timedOut {
+		return &violation{seed: seed, res: &harness.Result{Violation: "real-leg-stuck", Signature: "real-leg-stuck",
+			Detail: fmt.Sprintf("the real-goroutine leg did not finish within %d s (budget %d s): its workloads always terminate, so goroutines are deadlocked or spinning; this does not replay exactly", secs+60, secs)}}
+	}
 	if b, e := os.ReadFile(filepath.Join(scratch, "race.json")); e == nil {
 		var m map[string]any
 		if json.Unmarshal(b, &m) == nil {
@@ -846,6 +917,13 @@ func raceLeg(prop, tier string, seed int64, secs int, info map[string]any, fixed
 				}
 			}
 			return v
+		}
+		if strings.Contains(s, "panic:") || strings.Contains(s, "fatal error:") {
+			if len(s) > 5000 {
+				s = s[:5000]
+			}
+			return &violation{seed: seed, res: &harness.Result{Violation: "process-crash", Signature: "real-leg process-crash:" + crashSig(s),
+				Detail: "the real-goroutine leg's process died (a panic escaped every recover, or a fatal runtime error):\n" + s}}
 		}
 		die2("race leg failed without a race report: %v\n%s", err, s)
 	}
@@ -904,8 +982,12 @@ func writeEvidence(prop, tier string, seed int64, sr *sweepResult, cfg tierCfg, 
 		"violations": reported,
 	}
 	b, _ := json.MarshalIndent(ev, "", " ")
-	os.MkdirAll(filepath.Join(verifDir, "evidence"), 0o755)
-	os.WriteFile(filepath.Join(verifDir, "evidence", prop+".json"), b, 0o644)
+	evDir := filepath.Join(verifDir, "evidence")
+	if v := os.Getenv("VERIF_EVIDENCE_DIR"); v != "" {
+		evDir = v
+	}
+	os.MkdirAll(evDir, 0o755)
+	os.WriteFile(filepath.Join(evDir, prop+".json"), b, 0o644)
 }
 
 // selftest proves determinism on a sample: for every property, the same 64
@@ -926,7 +1008,7 @@ func selftest(props []string) int {
 		die2("mktemp: %v", err)
 	}
 	defer cleanup()
-	if out, err := runCmd(verifDir, goEnv(), goBin, "run", "./verifgen", "-repo", "/repo", "-out", scratch); err != nil {
+	if out, err := runCmd(verifDir, goEnv(), goBin, "run", "./verifgen", "-repo", repoDir, "-target", "/repo", "-out", scratch); err != nil {
 		die2("verifgen failed: %v\n%s", err, out)
 	}
 	bin := filepath.Join(scratch, "worker.test")
@@ -1001,4 +1083,30 @@ func selftest(props []string) int {
 	fmt.Println("selftest: deterministic")
 	cleanup()
 	return 0
+}
+
+// spinningInInterpreter looks at the SIGQUIT stack dump of a stalled worker: it
+// returns the stack of a goroutine that is in state "running"/"runnable" with
+// frames inside github.com/mattn/anko/vm, or "".
+func spinningInInterpreter(stderrPath string) string {
+	b, err := os.ReadFile(stderrPath)
+	if err != nil {
+		return ""
+	}
+	for _, blk := range strings.Split(string(b), "\n\n") {
+		first := firstLine(blk)
+		if !strings.HasPrefix(first, "goroutine ") {
+			continue
+		}
+		if !(strings.Contains(first, "[running") || strings.Contains(first, "[runnable")) {
+			continue
+		}
+		if strings.Contains(blk, "github.com/mattn/anko/vm.") {
+			if len(blk) > 2500 {
+				blk = blk[:2500]
+			}
+			return blk
+		}
+	}
+	return ""
 }
